@@ -106,6 +106,7 @@ func runC11(c *Ctx) {
 		"C11.6 event generation is complete over the change kinds it distinguishes: in the service-health generator every non-delete service change reaches the rename / destination-change fix-up before any early exit, every delete emits a deregistration; every mapped config-entry change emits an event; every generator's error aborts the commit and its events are forwarded",
 		"C11.9 a snapshot handler reads only those fields of the subscription subject that the subject's String() — the key for snapshot caching and event routing — also reads",
 		"C11.8 no function of the stream package (nor an event payload method) writes into an event slice it was handed — element stores or the in-place filter idiom — because published batches are shared by all subscribers",
+		"C11.10 event generation appends only to slices it created (or back into the slice it extends): no append into the spare capacity of a captured/shared slice",
 		"C11.7 snapshot splice: the live buffer is joined at the first item with an index strictly larger than the snapshot's, the end-of-snapshot marker carries the snapshot's index; a subscription resumes without snapshot only when the requested index is still at the buffer head, and a stale non-zero index always gets NewSnapshotToFollow first",
 	}
 	r.NotDecided = []string{
@@ -137,6 +138,7 @@ func runC11(c *Ctx) {
 	c11Client(c)
 	c11Splice(c)
 	c11SharedEventsImmutable(c)
+	c11FreshEventSlices(c)
 	c11SubjectKeys(c)
 }
 
